@@ -1,49 +1,92 @@
-"""Bounded model checking of interleavings: K-step unrolling of the product of thread transition
-systems over an explicit word-array memory, with a symbolic scheduler."""
+"""Bounded model checking of interleavings over a *schedule plan*.
+
+A plan is a list of chunks (thread index, maximal number of steps); chunk after chunk, the chunk's
+thread takes between 0 and its maximal number of steps and then yields (a context switch). How many
+steps each chunk really takes is decided by the solver (one Boolean `run[k]` per step, monotone inside a
+chunk), so one query covers every interleaving with that context-switch shape - e.g. the plan
+A^20 B^12 A^20 covers all schedules a* b* a* of two threads with at most 20/12 steps each.  All context
+switch shapes up to the stated number of switches are covered by running the query for every plan of
+that family (see driver).  Compared with a free scheduler variable per step this keeps the formula of a
+step down to one thread's step relation and removes the scheduling search from the SAT problem.
+
+State: the arena words W[i] (64-bit; one extra word for Memory.refs), and per thread a program counter,
+registers (live template slots after liveness analysis / register allocation, ts.ThreadTS.analyse) and
+monitor flags.  The step relation of each thread is built once over template variables and instantiated
+by substitution for every step of the plan that belongs to that thread."""
 import z3, time
 from . import ts as TS
+from . import sym
 from .sym import bv, Tup, MemRef
 from .mir import Unsupported
 
-IDLE = 255
+ATOMIC_KINDS = ("load", "store", "compare_exchange", "compare_exchange_weak", "fetch_add", "fetch_sub")
+ORD = {0: "Relaxed", 1: "Release", 2: "Acquire", 3: "AcqRel", 4: "SeqCst"}
+NB = 10  # bits used for byte positions inside the arena (after an explicit bounds check)
+
+
+def ord_of(v):
+    d = v.discr if isinstance(v, sym.Enum) else None
+    if isinstance(d, int):
+        return ORD[d]
+    raise Unsupported("non-constant memory ordering")
 
 
 class Model:
-    def __init__(self, cap, threads, K, nown=2, spurious=1, hb=False):
-        """threads: list[ThreadTS] (explored). cap: arena bytes (multiple of 8)."""
-        self.cap, self.threads, self.K = cap, threads, K
-        self.NW = cap // 8 + 1  # + the reference counter word
+    def __init__(self, cap, threads, plan, spurious=1, hb=False, dofs=0):
+        """plan: [(thread index, max steps)], executed chunk after chunk."""
+        self.cap, self.threads = cap, threads
+        self.chunks = list(plan)
+        self.plan = []
+        self.chunk_of = []
+        for ci, (ti, n) in enumerate(self.chunks):
+            self.plan += [ti] * n
+            self.chunk_of += [ci] * n
+        self.K = K = len(self.plan)
+        self.NW = cap // 8 + 1
         self.REFS = cap
-        self.nown = nown
         self.spurious = spurious
+        self.hb = hb
+        self.dofs = dofs
         self.cons = []
+        self.T = T = len(threads)
         self.W = [[z3.BitVec("W_%d_%d" % (k, i), 64) for i in range(self.NW)] for k in range(K + 1)]
-        self.sched = [z3.BitVec("sched_%d" % k, 8) for k in range(K)]
-        self.pc = [[z3.BitVec("pc_%d_%s" % (k, t.t), 8) for t in threads] for k in range(K + 1)]
-        self.slots = []  # [k][ti] -> {tvar_name: stepvar}
-        self.G = []  # [k][ti] -> dict of bookkeeping regs
-        for k in range(K + 1):
-            row, grow = [], []
-            for t in threads:
-                d = {}
-                for name, tv in t.tvars.items():
-                    d[name] = z3.Const("%s@%d" % (name, k), tv.sort())
-                row.append(d)
-                g = {"corrupt": z3.Bool("G_%s_corrupt@%d" % (t.t, k)), "oob": z3.Bool("G_%s_oob@%d" % (t.t, k)),
-                     "spur": z3.BitVec("G_%s_spur@%d" % (t.t, k), 4), "unmounts": z3.BitVec("G_%s_unm@%d" % (t.t, k), 4)}
-                for j in range(nown):
-                    g["live%d" % j] = z3.Bool("G_%s_live%d@%d" % (t.t, j, k))
-                    for f in ("lo", "hi", "plo", "phi"):
-                        g["%s%d" % (f, j)] = z3.BitVec("G_%s_%s%d@%d" % (t.t, f, j, k), 32)
-                grow.append(g)
-            self.slots.append(row)
-            self.G.append(grow)
-        self.res_val = [[z3.BitVec("res_%d_%s" % (k, t.t), 64) for t in threads] for k in range(K)]
-        self.res_ok = [[z3.Bool("ok_%d_%s" % (k, t.t)) for t in threads] for k in range(K)]
+        self.run = [z3.Bool("run_%d" % k) for k in range(K)]
         self.spur = [z3.Bool("spurious_%d" % k) for k in range(K)]
-        self.trace_info = []
+        self.res_val = [z3.BitVec("res_%d" % k, 64) for k in range(K)]
+        self.res_ok = [z3.Bool("ok_%d" % k) for k in range(K)]
+        # thread-local state only gets fresh variables at the steps of that thread
+        self.pc, self.R, self.F = [], [], []
+        ver = [0] * T
+        for k in range(K + 1):
+            if k > 0:
+                ver[self.plan[k - 1]] += 1
+            prow, rrow, frow = [], [], []
+            for ti, t in enumerate(threads):
+                if k > 0 and self.plan[k - 1] != ti:
+                    prow.append(self.pc[k - 1][ti])
+                    rrow.append(self.R[k - 1][ti])
+                    frow.append(self.F[k - 1][ti])
+                    continue
+                v = ver[ti]
+                prow.append(z3.BitVec("pc_%s@%d" % (t.t, v), 8))
+                d = {}
+                for sk, n in t.regs.items():
+                    for i in range(n):
+                        d[(sk, i)] = z3.Const("R_%s_%s_%d@%d" % (t.t, sk.replace("(", "").replace(")", ""), i, v), t.sort_of[sk])
+                rrow.append(d)
+                frow.append({"corrupt": z3.Bool("F_%s_corrupt@%d" % (t.t, v)), "oob": z3.Bool("F_%s_oob@%d" % (t.t, v)),
+                             "spur": z3.BitVec("F_%s_spur@%d" % (t.t, v), 3), "unmounts": z3.BitVec("F_%s_unm@%d" % (t.t, v), 3)})
+            self.pc.append(prow)
+            self.R.append(rrow)
+            self.F.append(frow)
+        self.H = []
+        if hb:
+            self.CW = 5
+            self.wit = z3.BitVec("hb_witness_byte", 16)
+            for k in range(K + 1):
+                self.H.append(self._hb_vars("H%d" % k))
 
-    # ---------------------------------------------------------------- memory helpers
+    # ---------------------------------------------------------------- helpers
     def read64(self, W, addr):
         idx = z3.Extract(15, 3, addr)
         r = W[self.NW - 1]
@@ -52,64 +95,7 @@ class Model:
         return r
 
     def byte_of(self, W, b):
-        """constant byte index b -> 8-bit term"""
         return z3.Extract(8 * (b % 8) + 7, 8 * (b % 8), W[b // 8])
-
-    def subst(self, ti, k, term):
-        t = self.threads[ti]
-        pairs = self._pairs(ti, k)
-        return z3.substitute(term, *pairs)
-
-    def _pairs(self, ti, k):
-        key = (ti, k)
-        if not hasattr(self, "_pc"):
-            self._pc = {}
-        if key not in self._pc:
-            t = self.threads[ti]
-            pairs = [(tv, self.slots[k][ti][name]) for name, tv in t.tvars.items()]
-            if k < self.K:
-                pairs.append((t.RES_VAL, self.res_val[k][ti]))
-                pairs.append((t.RES_OK, self.res_ok[k][ti]))
-            self._pc[key] = pairs
-        return self._pc[key]
-
-    # ---------------------------------------------------------------- step relation
-    def build(self):
-        """The step relation is built once over template variables (cur/next) and instantiated
-        K times by substitution."""
-        T = len(self.threads)
-        self.tW = [z3.BitVec("tW_%d" % i, 64) for i in range(self.NW)]
-        self.tW1 = [z3.BitVec("tW1_%d" % i, 64) for i in range(self.NW)]
-        self.tsched = z3.BitVec("tsched", 8)
-        self.tpc = [z3.BitVec("tpc_%s" % t.t, 8) for t in self.threads]
-        self.tpc1 = [z3.BitVec("tpc1_%s" % t.t, 8) for t in self.threads]
-        self.tslots1 = [{name: z3.Const(name + "'", tv.sort()) for name, tv in t.tvars.items()} for t in self.threads]
-        self.tG = [{g: z3.Const("t" + str(v) .split("@")[0], v.sort()) for g, v in self.G[0][ti].items()} for ti in range(T)]
-        self.tG1 = [{g: z3.Const("t1" + str(v).split("@")[0], v.sort()) for g, v in self.G[0][ti].items()} for ti in range(T)]
-        self.tspur = z3.Bool("tspur")
-        self._tmpl = []
-        self.step_template()
-        big = z3.And(self._tmpl)
-        for k in range(self.K):
-            pairs = []
-            for i in range(self.NW):
-                pairs.append((self.tW[i], self.W[k][i]))
-                pairs.append((self.tW1[i], self.W[k + 1][i]))
-            pairs.append((self.tsched, self.sched[k]))
-            pairs.append((self.tspur, self.spur[k]))
-            for ti, t in enumerate(self.threads):
-                pairs.append((self.tpc[ti], self.pc[k][ti]))
-                pairs.append((self.tpc1[ti], self.pc[k + 1][ti]))
-                pairs.append((t.RES_VAL, self.res_val[k][ti]))
-                pairs.append((t.RES_OK, self.res_ok[k][ti]))
-                for name, tv in t.tvars.items():
-                    pairs.append((tv, self.slots[k][ti][name]))
-                    pairs.append((self.tslots1[ti][name], self.slots[k + 1][ti][name]))
-                for g in self.tG[ti]:
-                    pairs.append((self.tG[ti][g], self.G[k][ti][g]))
-                    pairs.append((self.tG1[ti][g], self.G[k + 1][ti][g]))
-            self.cons.append(z3.substitute(big, *pairs))
-        return self
 
     def _as64(self, v):
         if isinstance(v, MemRef):
@@ -120,235 +106,409 @@ class Model:
             return z3.ZeroExt(64 - v.size(), v)
         return v
 
-    def step_template(self):
-        W, W1 = self.tW, self.tW1
-        sched = self.tsched
-        T = len(self.threads)
-        cons = self._tmpl
-        ident = lambda ti, k, term: term
-        all_done = z3.And([z3.UGE(self.tpc[ti], bv(TS.DONE, 8)) for ti in range(T)])
-        # scheduler: a runnable thread, or idle when none is
-        cons.append(z3.Or([sched == ti for ti in range(T)] + [sched == IDLE]))
-        cons.append((sched == IDLE) == all_done)
-        newW = list(W)
-        for ti, t in enumerate(self.threads):
-            sel = sched == ti
-            pc = self.tpc[ti]
-            cons.append(z3.Implies(sel, z3.ULT(pc, bv(TS.DONE, 8))))
-            G, G1 = self.tG[ti], self.tG1[ti]
-            # ---- gather the op of the current point
-            word_pts, range_pts, own_pts, rel_pts, chk_pts, unm_pts = [], [], [], [], [], []
-            for p in t.by_id.values():
-                kind = p.op["kind"]
-                if kind in ("load", "store", "compare_exchange", "compare_exchange_weak", "fetch_add", "fetch_sub"):
-                    word_pts.append(p)
-                elif kind in ("memset", "client::fill"):
-                    range_pts.append(p)
-                elif kind == "client::check":
-                    chk_pts.append(p)
-                elif kind == "client::own":
-                    own_pts.append(p)
-                elif kind == "client::release":
-                    rel_pts.append(p)
-                elif kind == "unmount":
-                    unm_pts.append(p)
-                elif kind == "nop":
-                    pass
-                else:
-                    raise Unsupported("op kind " + kind)
-            at = lambda p: pc == p.id
-            # word accesses
-            A = bv(0, 64)
-            V = bv(0, 64)
-            E = bv(0, 64)
-            is32 = z3.BoolVal(False)
-            fl = {n: [] for n in ("load", "store", "compare_exchange", "compare_exchange_weak", "fetch_add", "fetch_sub")}
-            for p in word_pts:
-                a = p.op["args"]
-                addr = ident(ti, 0, self._as64(a[0]))
-                A = z3.If(at(p), addr, A)
-                kind = p.op["kind"]
-                fl[kind].append(at(p))
-                if p.op["width"] == 32:
-                    is32 = z3.Or(is32, at(p))
-                if kind == "store":
-                    V = z3.If(at(p), ident(ti, 0, self._as64(a[1])), V)
-                elif kind in ("compare_exchange", "compare_exchange_weak"):
-                    E = z3.If(at(p), ident(ti, 0, self._as64(a[1])), E)
-                    V = z3.If(at(p), ident(ti, 0, self._as64(a[2])), V)
-                elif kind in ("fetch_add", "fetch_sub"):
-                    V = z3.If(at(p), ident(ti, 0, self._as64(a[1])), V)
-            f = {n: (z3.Or(v) if v else z3.BoolVal(False)) for n, v in fl.items()}
-            is_word = z3.Or([at(p) for p in word_pts]) if word_pts else z3.BoolVal(False)
-            word = self.read64(W, A)
-            hi_half = z3.Extract(2, 2, A) == 1
-            cur32 = z3.If(hi_half, z3.Extract(63, 32, word), z3.Extract(31, 0, word))
-            cur = z3.If(is32, z3.ZeroExt(32, cur32), word)
-            is_cas = z3.Or(f["compare_exchange"], f["compare_exchange_weak"])
-            spur = z3.And(self.tspur, f["compare_exchange_weak"], z3.ULT(G["spur"], bv(self.spurious, 4)))
-            ok = z3.And(cur == E, z3.Not(spur))
-            cons.append(z3.Implies(sel, t.RES_VAL == cur))
-            nv = z3.If(f["store"], V,
-                       z3.If(is_cas, z3.If(ok, V, cur),
-                             z3.If(f["fetch_add"], cur + V, z3.If(f["fetch_sub"], cur - V, cur))))
-            writes = z3.Or(f["store"], z3.And(is_cas, ok), f["fetch_add"], f["fetch_sub"])
-            nv32 = z3.Extract(31, 0, nv)
-            neww = z3.If(is32, z3.If(hi_half, z3.Concat(nv32, z3.Extract(31, 0, word)), z3.Concat(z3.Extract(63, 32, word), nv32)), nv)
-            widx = z3.Extract(15, 3, A)
-            valid = z3.If(is32,
-                          z3.And(z3.Extract(1, 0, A) == 0, z3.ULT(A, bv(self.cap, 64))),
-                          z3.And(z3.Extract(2, 0, A) == 0, z3.ULE(A, bv(self.REFS, 64))))
-            oob_now = z3.And(is_word, z3.Not(valid))
-            # range writes (memset by the arena, pattern fill by the client)
-            RL = bv(0, 64)
-            RN = bv(0, 64)
-            RB = bv(0, 8)
-            is_range = z3.Or([at(p) for p in range_pts]) if range_pts else z3.BoolVal(False)
-            for p in range_pts:
-                a = p.op["args"]
-                if p.op["kind"] == "memset":
-                    lo, byte, n = self._as64(a[0]), a[1], self._as64(a[2])
-                else:
-                    meta, byte = a[0], a[1]
-                    lo, n = self._as64(meta.f[3]), self._as64(meta.f[4])
-                RL = z3.If(at(p), ident(ti, 0, lo), RL)
-                RN = z3.If(at(p), ident(ti, 0, n), RN)
-                RB = z3.If(at(p), ident(ti, 0, byte), RB)
-            range_bad = z3.And(is_range, z3.Not(z3.And(z3.ULE(RL, bv(self.cap, 64)), z3.ULE(RN, bv(self.cap, 64)), z3.ULE(RL + RN, bv(self.cap, 64)))))
-            oob_now = z3.Or(oob_now, range_bad)
-            # client check
-            CL = bv(0, 64)
-            CN = bv(0, 64)
-            CB = bv(0, 8)
-            is_chk = z3.Or([at(p) for p in chk_pts]) if chk_pts else z3.BoolVal(False)
-            for p in chk_pts:
-                meta, byte = p.op["args"][0], p.op["args"][1]
-                CL = z3.If(at(p), ident(ti, 0, self._as64(meta.f[3])), CL)
-                CN = z3.If(at(p), ident(ti, 0, self._as64(meta.f[4])), CN)
-                CB = z3.If(at(p), ident(ti, 0, byte), CB)
-            chk_ok = z3.BoolVal(True)
-            if chk_pts:
-                conj = []
-                for b in range(self.cap):
-                    inr = z3.And(z3.ULE(CL, bv(b, 64)), z3.ULT(bv(b, 64), CL + CN))
-                    conj.append(z3.Implies(inr, self.byte_of(W, b) == CB))
-                chk_ok = z3.And(conj)
-            cons.append(z3.Implies(sel, t.RES_OK == z3.If(is_chk, chk_ok, ok)))
-            # ---- memory update
-            for i in range(self.NW):
-                w = newW[i]
-                upd = z3.If(z3.And(sel, is_word, writes, widx == i), neww, w)
-                if range_pts and i < self.NW - 1:
-                    bytes_ = []
-                    for j in range(7, -1, -1):
-                        b = 8 * i + j
-                        inr = z3.And(z3.ULE(RL, bv(b, 64)), z3.ULT(bv(b, 64), RL + RN))
-                        bytes_.append(z3.If(inr, RB, z3.Extract(8 * j + 7, 8 * j, W[i])))
-                    upd = z3.If(z3.And(sel, is_range), z3.Concat(*bytes_), upd)
-                newW[i] = upd
-            # ---- bookkeeping registers
-            cons.append(G1["oob"] == z3.Or(G["oob"], z3.And(sel, oob_now)))
-            cons.append(G1["corrupt"] == z3.Or(G["corrupt"], z3.And(sel, is_chk, z3.Not(chk_ok))))
-            cons.append(G1["spur"] == z3.If(z3.And(sel, spur), G["spur"] + 1, G["spur"]))
-            is_unm = z3.Or([at(p) for p in unm_pts]) if unm_pts else z3.BoolVal(False)
-            cons.append(G1["unmounts"] == z3.If(z3.And(sel, is_unm), G["unmounts"] + 1, G["unmounts"]))
-            for j in range(self.nown):
-                live, lo, hi, plo, phi = G["live%d" % j], G["lo%d" % j], G["hi%d" % j], G["plo%d" % j], G["phi%d" % j]
-                nl, nlo, nhi, nplo, nphi = live, lo, hi, plo, phi
-                for p in own_pts:
-                    meta, idx = p.op["args"][0], p.op["args"][1]
-                    if z3.simplify(idx).as_long() != j:
-                        continue
-                    c = z3.And(sel, at(p))
-                    mo, ms, po, ps = [ident(ti, 0, x) for x in (meta.f[1], meta.f[2], meta.f[3], meta.f[4])]
-                    e1, e2 = z3.ZeroExt(1, mo) + z3.ZeroExt(1, ms), z3.ZeroExt(1, po) + z3.ZeroExt(1, ps)
-                    ulo = z3.If(z3.ULE(mo, po), mo, po)
-                    uhi33 = z3.If(z3.UGE(e1, e2), e1, e2)
-                    # an end beyond 2^32 is reported as out of bounds by saturating the extent
-                    uhi = z3.If(z3.Extract(32, 32, uhi33) == 1, bv(0xFFFFFFFF, 32), z3.Extract(31, 0, uhi33))
-                    nl, nlo, nhi = z3.If(c, True, nl), z3.If(c, ulo, nlo), z3.If(c, uhi, nhi)
-                    nplo, nphi = z3.If(c, po, nplo), z3.If(c, po + ps, nphi)
-                for p in rel_pts:
-                    if z3.simplify(p.op["args"][0]).as_long() != j:
-                        continue
-                    nl = z3.If(z3.And(sel, at(p)), False, nl)
-                cons.append(G1["live%d" % j] == nl)
-                cons.append(G1["lo%d" % j] == nlo)
-                cons.append(G1["hi%d" % j] == nhi)
-                cons.append(G1["plo%d" % j] == nplo)
-                cons.append(G1["phi%d" % j] == nphi)
-            # ---- control and locals
-            npc = pc
-            by_slot = {}
-            for tr in t.trans:
-                c = z3.And(at(t.by_id[tr.src]), ident(ti, 0, tr.guard))
-                npc = z3.If(c, bv(tr.dst, 8), npc)
-                for tv, term in tr.updates.items():
-                    by_slot.setdefault(str(tv), []).append((c, term))
-            cons.append(self.tpc1[ti] == z3.If(sel, npc, pc))
-            for name in t.tvars:
-                curv = t.tvars[name]
-                nxt = curv
-                for (c, term) in by_slot.get(name, ()):
-                    nxt = z3.If(c, ident(ti, 0, term), nxt)
-                cons.append(self.tslots1[ti][name] == (z3.If(sel, nxt, curv) if name in by_slot else curv))
+    def reg_pairs(self, ti, regs):
+        t = self.threads[ti]
+        return [(t.tvars[n], regs[r]) for n, r in t.reg_of.items()]
+
+    def _hb_vars(self, pfx):
+        T = self.T
+        return {"vc": [[z3.BitVec("%s_VC_%d_%d" % (pfx, a, b), self.CW) for b in range(T)] for a in range(T)],
+                "rel": [[z3.BitVec("%s_REL_%d_%d" % (pfx, i, b), self.CW) for b in range(T)] for i in range(self.NW)],
+                "lw_t": z3.BitVec("%s_LW_t" % pfx, 8), "lw_c": z3.BitVec("%s_LW_c" % pfx, self.CW),
+                "lr": [z3.BitVec("%s_LR_%d" % (pfx, b), self.CW) for b in range(T)],
+                "race": z3.Bool("%s_RACE" % pfx)}
+
+    def _hb_pairs(self, a, b):
+        out = []
+        for x in range(self.T):
+            for y in range(self.T):
+                out.append((a["vc"][x][y], b["vc"][x][y]))
         for i in range(self.NW):
-            cons.append(W1[i] == newW[i])
+            for y in range(self.T):
+                out.append((a["rel"][i][y], b["rel"][i][y]))
+        out += [(a["lw_t"], b["lw_t"]), (a["lw_c"], b["lw_c"]), (a["race"], b["race"])]
+        for y in range(self.T):
+            out.append((a["lr"][y], b["lr"][y]))
+        return out
+
+    # ---------------------------------------------------------------- step relation
+    def build(self):
+        self.tW = [z3.BitVec("tW_%d" % i, 64) for i in range(self.NW)]
+        self.tW1 = [z3.BitVec("tW1_%d" % i, 64) for i in range(self.NW)]
+        self.trun = z3.Bool("trun")
+        self.tspur = z3.Bool("tspur")
+        self.tres_val = z3.BitVec("tres_val", 64)
+        self.tres_ok = z3.Bool("tres_ok")
+        if self.hb:
+            self.tH = self._hb_vars("tH")
+            self.tH1 = self._hb_vars("tH1")
+        self.tmpl = []
+        for ti, t in enumerate(self.threads):
+            self.tmpl.append(self.thread_template(ti, t))
+        for k in range(self.K):
+            ti = self.plan[k]
+            tm = self.tmpl[ti]
+            self.cons.append(z3.substitute(tm["rel"], *self._pairs(k, ti)))
+            if k > 0 and self.chunk_of[k] == self.chunk_of[k - 1]:
+                self.cons.append(z3.Implies(z3.Not(self.run[k - 1]), z3.Not(self.run[k])))
+        return self
+
+    def _pairs(self, k, ti):
+        tm = self.tmpl[ti]
+        pairs = []
+        for i in range(self.NW):
+            pairs.append((self.tW[i], self.W[k][i]))
+            pairs.append((self.tW1[i], self.W[k + 1][i]))
+        pairs += [(self.trun, self.run[k]), (self.tspur, self.spur[k]), (self.tres_val, self.res_val[k]), (self.tres_ok, self.res_ok[k])]
+        pairs += [(tm["pc"], self.pc[k][ti]), (tm["pc1"], self.pc[k + 1][ti])]
+        for r in tm["R"]:
+            pairs.append((tm["R"][r], self.R[k][ti][r]))
+            pairs.append((tm["R1"][r], self.R[k + 1][ti][r]))
+        for g in tm["F"]:
+            pairs.append((tm["F"][g], self.F[k][ti][g]))
+            pairs.append((tm["F1"][g], self.F[k + 1][ti][g]))
+        if self.hb:
+            pairs += self._hb_pairs(self.tH, self.H[k]) + self._hb_pairs(self.tH1, self.H[k + 1])
+        return pairs
+
+    def thread_template(self, ti, t):
+        W, W1 = self.tW, self.tW1
+        sel = self.trun
+        cons = []
+        pc = z3.BitVec("tpc_%s" % t.t, 8)
+        pc1 = z3.BitVec("tpc1_%s" % t.t, 8)
+        R = {}
+        R1 = {}
+        for sk, n in t.regs.items():
+            for i in range(n):
+                R[(sk, i)] = z3.Const("tR_%s_%s_%d" % (t.t, sk, i), t.sort_of[sk])
+                R1[(sk, i)] = z3.Const("tR1_%s_%s_%d" % (t.t, sk, i), t.sort_of[sk])
+        F = {"corrupt": z3.Bool("tF_%s_corrupt" % t.t), "oob": z3.Bool("tF_%s_oob" % t.t), "spur": z3.BitVec("tF_%s_spur" % t.t, 3), "unmounts": z3.BitVec("tF_%s_unm" % t.t, 3)}
+        F1 = {g: z3.Const("tF1_%s_%s" % (t.t, g), v.sort()) for g, v in F.items()}
+        cons.append(z3.Implies(sel, z3.ULT(pc, bv(TS.DONE, 8))))
+        sub = self.reg_pairs(ti, R)
+
+        def S(term):
+            return z3.substitute(term, *sub) if sub else term
+
+        word_pts, range_pts, chk_pts, unm_pts = [], [], [], []
+        for p in t.by_id.values():
+            kind = p.op["kind"]
+            if kind in ATOMIC_KINDS:
+                word_pts.append(p)
+            elif kind in ("memset", "client::fill"):
+                range_pts.append(p)
+            elif kind == "client::check":
+                chk_pts.append(p)
+            elif kind == "unmount":
+                unm_pts.append(p)
+            elif kind == "nop":
+                pass
+            else:
+                raise Unsupported("op kind " + kind)
+        at = lambda p: pc == p.id
+        A = bv(0, 64)
+        V = bv(0, 64)
+        E = bv(0, 64)
+        is32 = z3.BoolVal(False)
+        fl = {n: [] for n in ATOMIC_KINDS}
+        for p in word_pts:
+            a = p.op["args"]
+            A = z3.If(at(p), S(self._as64(a[0])), A)
+            kind = p.op["kind"]
+            fl[kind].append(at(p))
+            if p.op["width"] == 32:
+                is32 = z3.Or(is32, at(p))
+            if kind == "store":
+                V = z3.If(at(p), S(self._as64(a[1])), V)
+            elif kind in ("compare_exchange", "compare_exchange_weak"):
+                E = z3.If(at(p), S(self._as64(a[1])), E)
+                V = z3.If(at(p), S(self._as64(a[2])), V)
+            elif kind in ("fetch_add", "fetch_sub"):
+                V = z3.If(at(p), S(self._as64(a[1])), V)
+        f = {n: (z3.Or(v) if v else z3.BoolVal(False)) for n, v in fl.items()}
+        is_word = z3.Or([at(p) for p in word_pts]) if word_pts else z3.BoolVal(False)
+        word = self.read64(W, A)
+        hi_half = z3.Extract(2, 2, A) == 1
+        cur32 = z3.If(hi_half, z3.Extract(63, 32, word), z3.Extract(31, 0, word))
+        cur = z3.If(is32, z3.ZeroExt(32, cur32), word)
+        is_cas = z3.Or(f["compare_exchange"], f["compare_exchange_weak"])
+        spur = z3.And(self.tspur, f["compare_exchange_weak"], z3.ULT(F["spur"], bv(self.spurious, 3)))
+        ok = z3.And(cur == E, z3.Not(spur))
+        addv = z3.If(is32, z3.ZeroExt(32, z3.Extract(31, 0, cur + V)), cur + V)
+        subv = z3.If(is32, z3.ZeroExt(32, z3.Extract(31, 0, cur - V)), cur - V)
+        nv = z3.If(f["store"], V,
+                   z3.If(is_cas, z3.If(ok, V, cur),
+                         z3.If(f["fetch_add"], addv, z3.If(f["fetch_sub"], subv, cur))))
+        writes = z3.Or(f["store"], z3.And(is_cas, ok), f["fetch_add"], f["fetch_sub"])
+        nv32 = z3.Extract(31, 0, nv)
+        neww = z3.If(is32, z3.If(hi_half, z3.Concat(nv32, z3.Extract(31, 0, word)), z3.Concat(z3.Extract(63, 32, word), nv32)), nv)
+        widx = z3.Extract(15, 3, A)
+        valid = z3.If(is32,
+                      z3.And(z3.Extract(1, 0, A) == 0, z3.ULT(A, bv(self.cap, 64))),
+                      z3.And(z3.Extract(2, 0, A) == 0, z3.ULE(A, bv(self.REFS, 64))))
+        oob_now = z3.And(is_word, z3.Not(valid))
+        # ---- range writes
+        RL = bv(0, 64)
+        RN = bv(0, 64)
+        RB = bv(0, 8)
+        is_range = z3.Or([at(p) for p in range_pts]) if range_pts else z3.BoolVal(False)
+        for p in range_pts:
+            a = p.op["args"]
+            if p.op["kind"] == "memset":
+                lo, byte, n = self._as64(a[0]), a[1], self._as64(a[2])
+            else:
+                meta, byte = a[0], a[1]
+                lo, n = self._as64(meta.f[3]), self._as64(meta.f[4])
+            RL = z3.If(at(p), S(lo), RL)
+            RN = z3.If(at(p), S(n), RN)
+            RB = z3.If(at(p), S(byte), RB)
+        capv = bv(self.cap, 64)
+        range_ok = z3.And(z3.ULE(RL, capv), z3.ULE(RN, capv), z3.ULE(RL + RN, capv))
+        oob_now = z3.Or(oob_now, z3.And(is_range, z3.Not(range_ok)))
+        rl, rh = z3.Extract(NB - 1, 0, RL), z3.Extract(NB - 1, 0, RL + RN)
+        # ---- client check
+        CL = bv(0, 64)
+        CN = bv(0, 64)
+        CB = bv(0, 8)
+        is_chk = z3.Or([at(p) for p in chk_pts]) if chk_pts else z3.BoolVal(False)
+        for p in chk_pts:
+            meta, byte = p.op["args"][0], p.op["args"][1]
+            CL = z3.If(at(p), S(self._as64(meta.f[3])), CL)
+            CN = z3.If(at(p), S(self._as64(meta.f[4])), CN)
+            CB = z3.If(at(p), S(byte), CB)
+        chk_ok = z3.BoolVal(True)
+        cl = ch = None
+        if chk_pts:
+            chk_in = z3.And(z3.ULE(CL, capv), z3.ULE(CN, capv), z3.ULE(CL + CN, capv))
+            cl, ch = z3.Extract(NB - 1, 0, CL), z3.Extract(NB - 1, 0, CL + CN)
+            conj = [chk_in]
+            for b in range(self.dofs, self.cap):
+                inr = z3.And(z3.ULE(cl, bv(b, NB)), z3.ULT(bv(b, NB), ch))
+                conj.append(z3.Implies(inr, self.byte_of(W, b) == CB))
+            chk_ok = z3.And(conj)
+        res_val, res_ok = self.tres_val, self.tres_ok
+        cons.append(res_val == cur)
+        cons.append(res_ok == z3.If(is_chk, chk_ok, ok))
+        # ---- memory update
+        for i in range(self.NW):
+            upd = z3.If(z3.And(sel, is_word, writes, valid, widx == i), neww, W[i])
+            if range_pts and i < self.NW - 1:
+                bytes_ = []
+                for j in range(7, -1, -1):
+                    b = 8 * i + j
+                    inr = z3.And(z3.ULE(rl, bv(b, NB)), z3.ULT(bv(b, NB), rh))
+                    bytes_.append(z3.If(inr, RB, z3.Extract(8 * j + 7, 8 * j, W[i])))
+                upd = z3.If(z3.And(sel, is_range, range_ok), z3.Concat(*bytes_), upd)
+            cons.append(W1[i] == upd)
+        # ---- monitor flags
+        oob1 = z3.Or(F["oob"], z3.And(sel, oob_now))
+        cor1 = z3.Or(F["corrupt"], z3.And(sel, is_chk, z3.Not(chk_ok)))
+        spur1 = z3.If(z3.And(sel, spur), F["spur"] + 1, F["spur"])
+        is_unm = z3.Or([at(p) for p in unm_pts]) if unm_pts else z3.BoolVal(False)
+        unm1 = z3.If(z3.And(sel, is_unm), F["unmounts"] + 1, F["unmounts"])
+        cons += [F1["oob"] == oob1, F1["corrupt"] == cor1, F1["spur"] == spur1, F1["unmounts"] == unm1]
+        # ---- control and registers
+        res_sub = [(t.RES_VAL, res_val), (t.RES_OK, res_ok)]
+
+        def SR(term):
+            return z3.substitute(term, *(sub + res_sub))
+
+        npc = pc
+        by_reg = {}
+        for tr in t.trans:
+            src = t.by_id[tr.src]
+            c = z3.And(at(src), SR(tr.guard))
+            npc = z3.If(c, bv(tr.dst, 8), npc)
+            dst_live = t.live.get(tr.dst, t.always_live)
+            for tv, term in tr.updates.items():
+                n = str(tv)
+                if n in t.reg_of and n in dst_live:
+                    r = t.reg_of[n]
+                    val = SR(term)
+                    if val.eq(R[r]):
+                        continue
+                    by_reg.setdefault(r, {}).setdefault(val.get_id(), [val, []])[1].append(c)
+        cons.append(pc1 == z3.If(sel, npc, pc))
+        same = [npc == pc]
+        for r, curv in R.items():
+            nxt = curv
+            for (val, conds) in by_reg.get(r, {}).values():
+                nxt = z3.If(z3.Or(conds) if len(conds) > 1 else conds[0], val, nxt)
+            cons.append(R1[r] == (z3.If(sel, nxt, curv) if r in by_reg else curv))
+            if r in by_reg:
+                lm = z3.Or([pc == pid for pid, L in t.live.items() if any(t.reg_of.get(n) == r for n in L)] or [z3.BoolVal(False)])
+                same.append(z3.Or(z3.Not(lm), nxt == curv))
+        mem_same = z3.And(z3.Not(z3.And(is_word, writes, valid, neww != word)), z3.Not(is_range))
+        # a step that changes nothing at all: one iteration of a spin-wait
+        stutter = z3.And(sel, z3.And(same), mem_same, z3.Not(spur), oob1 == F["oob"], cor1 == F["corrupt"], z3.Not(is_unm))
+        if self.hb:
+            cons += self._hb_thread(ti, t, sel, at, word_pts, unm_pts, widx, ok, rl, rh, cl, ch, is_word, is_range, is_chk)
+        return {"rel": z3.And(cons), "pc": pc, "pc1": pc1, "R": R, "R1": R1, "F": F, "F1": F1, "stutter": stutter, "spin_addr": A,
+                "spin_word": word}
+
+    # ---------------------------------------------------------------- happens-before (C12)
+    def _hb_thread(self, ti, t, sel, at, word_pts, unm_pts, widx, ok, rl, rh, cl, ch, is_word, is_range, is_chk):
+        H, H1 = self.tH, self.tH1
+        T = self.T
+        CW = self.CW
+        acq = z3.BoolVal(False)
+        rel = z3.BoolVal(False)
+        rmw = z3.BoolVal(False)
+        plain_store = z3.BoolVal(False)
+        for p in word_pts:
+            kind = p.op["kind"]
+            a = p.op["args"]
+            here = at(p)
+            if kind == "load":
+                if ord_of(a[1]) in ("Acquire", "SeqCst", "AcqRel"):
+                    acq = z3.Or(acq, here)
+            elif kind == "store":
+                if ord_of(a[2]) in ("Release", "SeqCst", "AcqRel"):
+                    rel = z3.Or(rel, here)
+                else:
+                    plain_store = z3.Or(plain_store, here)
+            elif kind in ("compare_exchange", "compare_exchange_weak"):
+                so, fo = ord_of(a[3]), ord_of(a[4])
+                if so in ("Acquire", "AcqRel", "SeqCst"):
+                    acq = z3.Or(acq, z3.And(here, ok))
+                if fo in ("Acquire", "AcqRel", "SeqCst"):
+                    acq = z3.Or(acq, z3.And(here, z3.Not(ok)))
+                if so in ("Release", "AcqRel", "SeqCst"):
+                    rel = z3.Or(rel, z3.And(here, ok))
+                rmw = z3.Or(rmw, z3.And(here, ok))
+            else:
+                o = ord_of(a[2])
+                if o in ("Acquire", "AcqRel", "SeqCst"):
+                    acq = z3.Or(acq, here)
+                if o in ("Release", "AcqRel", "SeqCst"):
+                    rel = z3.Or(rel, here)
+                rmw = z3.Or(rmw, here)
+        acq, rel, rmw, plain_store = [z3.And(sel, is_word, x) for x in (acq, rel, rmw, plain_store)]
+        wit = z3.Extract(NB - 1, 0, self.wit)
+        wr_wit = z3.And(sel, is_range, z3.ULE(rl, wit), z3.ULT(wit, rh))
+        rd_wit = z3.And(sel, is_chk, z3.ULE(cl, wit), z3.ULT(wit, ch)) if cl is not None else z3.BoolVal(False)
+        unm = z3.And(sel, z3.Or([at(p) for p in unm_pts])) if unm_pts else z3.BoolVal(False)
+
+        def mx(a, b):
+            return z3.If(z3.UGE(a, b), a, b)
+
+        cons = []
+        relw = [H["rel"][self.NW - 1][b] for b in range(T)]
+        for i in range(self.NW - 2, -1, -1):
+            relw = [z3.If(widx == i, H["rel"][i][b], relw[b]) for b in range(T)]
+        my = [z3.If(acq, mx(H["vc"][ti][b], relw[b]), H["vc"][ti][b]) for b in range(T)]
+        for a in range(T):
+            for b in range(T):
+                if a != ti:
+                    cons.append(H1["vc"][a][b] == H["vc"][a][b])
+                else:
+                    cons.append(H1["vc"][a][b] == (z3.If(sel, my[b] + 1, my[b]) if b == ti else my[b]))
+        for i in range(self.NW):
+            hit = widx == i
+            for b in range(T):
+                cur = H["rel"][i][b]
+                v = z3.If(z3.And(hit, rel, rmw), mx(cur, my[b]),
+                          z3.If(z3.And(hit, rel), my[b],
+                                z3.If(z3.And(hit, plain_store), bv(0, CW), cur)))
+                cons.append(H1["rel"][i][b] == v)
+        lw_t, lw_c, lr = H["lw_t"], H["lw_c"], H["lr"]
+        my_of_lw = my[-1]
+        for b in range(T - 2, -1, -1):
+            my_of_lw = z3.If(lw_t == b, my[b], my_of_lw)
+        prev_w_unordered = z3.And(lw_t != 255, lw_t != ti, z3.UGT(lw_c, my_of_lw))
+        prev_r_unordered = z3.Or([z3.UGT(lr[b], my[b]) for b in range(T) if b != ti] or [z3.BoolVal(False)])
+        race = z3.Or(H["race"], z3.And(wr_wit, z3.Or(prev_w_unordered, prev_r_unordered)), z3.And(rd_wit, prev_w_unordered),
+                     z3.And(unm, z3.Or(prev_w_unordered, prev_r_unordered)))
+        stamp = my[ti] + 1
+        cons.append(H1["race"] == race)
+        cons.append(H1["lw_t"] == z3.If(wr_wit, bv(ti, 8), lw_t))
+        cons.append(H1["lw_c"] == z3.If(wr_wit, stamp, lw_c))
+        for b in range(T):
+            if b == ti:
+                cons.append(H1["lr"][b] == z3.If(wr_wit, bv(0, CW), z3.If(rd_wit, stamp, lr[b])))
+            else:
+                cons.append(H1["lr"][b] == z3.If(wr_wit, bv(0, CW), lr[b]))
+        return cons
+
+    def hb_init(self):
+        c = []
+        H = self.H[0]
+        for a in range(self.T):
+            for b in range(self.T):
+                c.append(H["vc"][a][b] == 0)
+        for i in range(self.NW):
+            for b in range(self.T):
+                c.append(H["rel"][i][b] == 0)
+        c += [H["lw_t"] == 255, H["lw_c"] == 0, z3.Not(H["race"])]
+        for b in range(self.T):
+            c.append(H["lr"][b] == 0)
+        c.append(z3.And(z3.UGE(self.wit, self.dofs), z3.ULT(self.wit, self.cap)))
+        return c
 
     # ---------------------------------------------------------------- predicates
-    def all_done(self, k):
-        return z3.And([self.pc[k][ti] == TS.DONE for ti in range(len(self.threads))])
+    def at_step(self, k, term):
+        """instantiate a term of the template of thread plan[k] at step k"""
+        return z3.substitute(term, *self._pairs(k, self.plan[k]))
 
-    def bad(self, k, dofs):
-        """overlap of two live extents, an extent outside the data area, corrupted pattern, invalid access, panic"""
+    def stutter(self, k):
+        return self.at_step(k, self.tmpl[self.plan[k]]["stutter"])
+
+    def own(self, k, ti, j):
+        t = self.threads[ti]
+        return [self.R[k][ti][t.reg_of[str(t.own_slot(j, f))]] for f in range(5)]
+
+    def all_done(self, k):
+        return z3.And([self.pc[k][ti] == TS.DONE for ti in range(self.T)])
+
+    def finished(self, k, ti):
+        return z3.UGE(self.pc[k][ti], bv(TS.DONE, 8))
+
+    def run_to_completion_in_last_chunks(self):
+        """in the last chunk of each thread the thread keeps running until it has finished"""
+        c = []
+        last = {}
+        for ci, (ti, n) in enumerate(self.chunks):
+            last[ti] = ci
+        for k in range(self.K):
+            ti = self.plan[k]
+            if self.chunk_of[k] == last[ti]:
+                c.append(z3.Implies(z3.Not(self.finished(k, ti)), self.run[k]))
+        return c
+
+    def bad(self, k):
         bads = {}
-        T = len(self.threads)
         ext = []
-        for ti in range(T):
-            G = self.G[k][ti]
-            bads["panic_%s" % self.threads[ti].t] = self.pc[k][ti] == TS.PANIC
-            bads["unreachable_%s" % self.threads[ti].t] = self.pc[k][ti] == TS.UNREACH
-            bads["corrupt_%s" % self.threads[ti].t] = G["corrupt"]
-            bads["oob_%s" % self.threads[ti].t] = G["oob"]
-            for j in range(self.nown):
-                ext.append((ti, j, G["live%d" % j], G["lo%d" % j], G["hi%d" % j]))
+        for ti, t in enumerate(self.threads):
+            F = self.F[k][ti]
+            bads["panic_%s" % t.t] = self.pc[k][ti] == TS.PANIC
+            bads["unreachable_%s" % t.t] = self.pc[k][ti] == TS.UNREACH
+            bads["corrupt_%s" % t.t] = F["corrupt"]
+            bads["oob_%s" % t.t] = F["oob"]
+            for j in range(t.nown):
+                live, lo, hi, _, _ = self.own(k, ti, j)
+                ext.append((live, lo, hi))
         outs, ovl = [], []
-        for (ti, j, live, lo, hi) in ext:
-            outs.append(z3.And(live, z3.ULT(lo, hi), z3.Or(z3.ULT(lo, bv(dofs, 32)), z3.UGT(hi, bv(self.cap, 32)))))
+        for (live, lo, hi) in ext:
+            outs.append(z3.And(live, z3.ULT(lo, hi), z3.Or(z3.ULT(lo, bv(self.dofs, 32)), z3.UGT(hi, bv(self.cap, 32)))))
         for a in range(len(ext)):
             for b in range(a + 1, len(ext)):
-                (_, _, l1, lo1, hi1), (_, _, l2, lo2, hi2) = ext[a], ext[b]
+                (l1, lo1, hi1), (l2, lo2, hi2) = ext[a], ext[b]
                 ovl.append(z3.And(l1, l2, z3.ULT(lo1, hi1), z3.ULT(lo2, hi2), z3.ULT(lo1, hi2), z3.ULT(lo2, hi1)))
         bads["out_of_data_area"] = z3.Or(outs) if outs else z3.BoolVal(False)
         bads["overlap"] = z3.Or(ovl) if ovl else z3.BoolVal(False)
         return bads
 
-    def state_eq(self, i, j):
-        eqs = [self.W[i][w] == self.W[j][w] for w in range(self.NW)]
-        for ti, t in enumerate(self.threads):
-            eqs.append(self.pc[i][ti] == self.pc[j][ti])
-            for name in t.tvars:
-                eqs.append(self.slots[i][ti][name] == self.slots[j][ti][name])
-            for g in self.G[i][ti]:
-                eqs.append(self.G[i][ti][g] == self.G[j][ti][g])
-        return z3.And(eqs)
-
-    def lasso(self):
-        """exists i<j: equal global states, not everyone finished, every unfinished thread moved in [i,j)"""
-        alts = []
-        T = len(self.threads)
-        for i in range(self.K):
-            for j in range(i + 1, self.K + 1):
-                fair = []
-                for ti in range(T):
-                    fin = z3.UGE(self.pc[i][ti], bv(TS.DONE, 8))
-                    fair.append(z3.Or(fin, z3.Or([self.sched[m] == ti for m in range(i, j)])))
-                alts.append(z3.And(self.state_eq(i, j), z3.Not(z3.And([z3.UGE(self.pc[i][ti], bv(TS.DONE, 8)) for ti in range(T)])), z3.And(fair)))
-        return z3.Or(alts)
+    def any_bad(self):
+        ds = []
+        for k in range(self.K + 1):
+            ds += list(self.bad(k).values())
+        return z3.Or(ds)
 
     # ---------------------------------------------------------------- solving / decoding
-    def solve(self, extra, timeout_s=600, want_model=True):
-        s = z3.Solver()
+    def solve(self, extra, timeout_s=600):
+        tac = z3.Then("simplify", "bit-blast", "sat")
+        s = tac.solver()
         s.set("timeout", int(timeout_s * 1000))
         s.add(self.cons)
         s.add(extra)
@@ -359,23 +519,26 @@ class Model:
         return str(r), m, dt, s
 
     def decode(self, m):
-        """schedule and per-step ops of a model"""
         steps = []
         for k in range(self.K):
-            sc = m.eval(self.sched[k], model_completion=True).as_long()
-            if sc == IDLE:
-                break
+            if not z3.is_true(m.eval(self.run[k], model_completion=True)):
+                continue
+            sc = self.plan[k]
             t = self.threads[sc]
             pcv = m.eval(self.pc[k][sc], model_completion=True).as_long()
             p = t.by_id.get(pcv)
-            ent = {"k": k, "thread": t.t, "point": pcv, "desc": p.desc if p else "?"}
-            if p and p.op["kind"] in ("load", "store", "compare_exchange", "compare_exchange_weak", "fetch_add", "fetch_sub"):
-                a = m.eval(self.subst(sc, k, self._as64(p.op["args"][0])), model_completion=True).as_long()
-                ent["addr"] = a
-                ent["old"] = m.eval(self.res_val[k][sc], model_completion=True).as_long()
+            ent = {"k": k, "thread": sc, "tname": t.t, "point": pcv, "desc": p.desc if p else "?"}
+            if p and p.op["kind"] in ATOMIC_KINDS:
+                a = self._as64(p.op["args"][0])
+                a = z3.substitute(a, *self.reg_pairs(sc, self.R[k][sc]))
+                addr = m.eval(a, model_completion=True).as_long()
+                ent["addr"] = addr
+                wi = min(addr // 8, self.NW - 1)
+                ent["word_before"] = m.eval(self.W[k][wi], model_completion=True).as_long()
+                ent["word_after"] = m.eval(self.W[k + 1][wi], model_completion=True).as_long()
+                ent["kind"] = p.op["kind"]
                 if "compare" in p.op["kind"]:
-                    ent["ok"] = z3.is_true(m.eval(self.res_ok[k][sc], model_completion=True))
-                    ent["spurious"] = z3.is_true(m.eval(self.spur[k], model_completion=True)) and p.op["kind"].endswith("weak")
+                    ent["ok"] = z3.is_true(m.eval(self.res_ok[k], model_completion=True))
             ent["next_pc"] = m.eval(self.pc[k + 1][sc], model_completion=True).as_long()
             steps.append(ent)
         return steps
